@@ -312,5 +312,6 @@ package types
 //@   (mk.beacon.BeaconTimestampGenesisExport (beacon.BeaconTimestamp.TimestampId b) (beacon.BeaconTimestamp.SubmitTime b) (beacon.BeaconTimestamp.Hash b)))
 //@ (define-fun tsKeyId ((k beacon.Key)) Int (kTs.id k))
 //@ (define-fun isBeaconKey ((k beacon.Key)) Bool ((_ is kBeacon) k))
+//@ (define-fun beaconKeyId ((k beacon.Key)) Int (kBeacon.id k))
 //@ (define-fun isBLimitKey ((k beacon.Key)) Bool ((_ is kBLimit) k))
 //@ end
